@@ -149,6 +149,8 @@ private:
 
                 if( isdigit( ch ))
                 {
+                    // a run of digits longer than the buffer is not a sample value
+                    io_error_if( k >= sizeof( _text_buffer ) - 1, "Too many digits in pnm file" );
                     _text_buffer[ k++ ] = static_cast< char >( ch );
                 }
                 else if( k )
